@@ -354,8 +354,16 @@ def _falls (stmts):
   return True
 
 class Inliner(object):
-  def __init__ (self, tree, modinv):
+  def __init__ (self, tree, modinv, external_def=None):
     self.tree = tree; self.inv = modinv; self.counter = 0; self.inlined = []; self.skip = set()
+    self.external_def = external_def
+    # a method defined by more than one class (here or in another file) may be reached by dynamic dispatch: `self.m()` in
+    # the base class can run a subclass's m - such a call is never replaced by one of the bodies
+    self.def_classes = {}
+    for c in ast.walk(tree):
+      if isinstance(c, ast.ClassDef):
+        for s in c.body:
+          if isinstance(s, FUNC): self.def_classes.setdefault(s.name, set()).add(c.name)
     self.helpers = {}      # ('method', cls, name) / ('func', name) -> FunctionDef   (new helpers only)
     self.methods_by_name = {}
     def visit (body, cls):
@@ -387,6 +395,8 @@ class Inliner(object):
     if isinstance(f, ast.Attribute):
       cands = self.methods_by_name.get(f.attr)
       if not cands: return None
+      if len(self.def_classes.get(f.attr, ())) > 1: return None
+      if self.external_def is not None and self.external_def(f.attr): return None
       h = None
       for c, fn in cands:
         if c == cls: h = fn
@@ -1337,7 +1347,7 @@ def inline_new_constants (tree, inv):
   return n
 
 # ---------------------------------------------------------------- driver
-def normalize_module (tree, modname, stats=None):
+def normalize_module (tree, modname, stats=None, external=None, external_def=None):
   inv = inventory().get(modname)
   n_alpha = alpha_rename(tree, modname)
   tree = _Desugar().visit(tree)
@@ -1351,7 +1361,7 @@ def normalize_module (tree, modname, stats=None):
     inv = None          # nothing new in this module: analysed as written
   if inv is not None:
     info['constants'] = inline_new_constants(tree, inv)
-    il = Inliner(tree, inv)
+    il = Inliner(tree, inv, external_def)
     il.run(); info['inlined'] = il.inlined
     # a new helper all of whose uses in this module were inlined is no longer a unit of its own
     used = set(h for _, h in il.inlined)
@@ -1374,6 +1384,7 @@ def normalize_module (tree, modname, stats=None):
           for n in ast.walk(tree):
             if id(n) in ids: continue
             if (isinstance(n, ast.Attribute) and n.attr == s_.name) or (isinstance(n, ast.Name) and n.id == s_.name and isinstance(n.ctx, ast.Load)): ref = True; break
+          if not ref and external is not None and external(s_.name): ref = True        # another file mentions it: stays a unit
           if not ref:
             info.setdefault('dropped', []).append(s_.name); continue
         out.append(s_)
